@@ -164,6 +164,13 @@ TABLES = {   # name -> (module, replay script, description of the enumerated spa
             "{1,3/2,2,3}, truncations {1/2,3/4,1}; 2-D grid populations with distinct ranks (threshold decided by integer "
             "square-root brackets, undecided rows skipped); every row replayed on NearestBetterClustering under embeddings "
             "(dimension 1-8, any axis, scales 1, 1/2, 1024, spacing 2^-30 around 1.0 and 2^20), permuted input orders, both directions"),
+    "engines": ("Engines", "harness/replay_engines.py",
+                "Engines.tla table: every pair (parents, offspring) of rank vectors with ties up to MaxPop for (mu+k) truncation "
+                "(k=1,2), DE/SHADE one-to-one replacement (driven through DE.run / SHADE.run with a scripted objective), top-k for "
+                "all k, tournament winner matrix, individual ordering; each row in both directions"),
+    "r5s": ("R5S", "harness/replay_r5s.py",
+            "R5S.tla table: every population of Size distinct lattice points with distinct ranks (all rank orders); the "
+            "transcribed selection is the oracle; each row replayed on R5SSelection in both directions with rotated input order"),
     "sprout": ("Sprout", "harness/replay_sprout.py",
                "Sprout.tla tables: DemeLimit (all rank vectors with ties x limits), LevelLimit (pooled candidates of root/A/B x "
                "occupancy incl. more active demes than the limit x L), SkipSameSprout (equal / different seeds of the same / another "
@@ -222,7 +229,8 @@ _corpus_prop("C10", ["rounds_with_sprouts", "rounds_where_filters_removed", "rou
              with_model=False, tables=("sprout",))
 _corpus_prop("C11", ["generations_recorded", "engine:SEA", "engine:DE", "engine:SHADE", "engine:CMA", "engine:MWEA"],
              with_model=False)
-_corpus_prop("C12", ["generations_recorded", "engine:SEA", "engine:DE", "engine:SHADE", "maximize"], with_model=False)
+_corpus_prop("C12", ["generations_recorded", "engine:SEA", "engine:DE", "engine:SHADE", "maximize"], with_model=False,
+             tables=("engines",))
 _corpus_prop("C18", ["deme_snapshots_hibernating", "hibernation_on", "hibernation_off", "levels=3", "rounds_empty"])
 
 
@@ -271,3 +279,64 @@ def c15(tier: str) -> PropResult:
         "are compared only when the float arithmetic is exact (m in {1,2,4}, dyadic factor), otherwise they are run for crashes only",
         "populations up to MaxN on a lattice; sizes up to 60 and arbitrary real coordinates are not enumerated",
     ])
+
+
+# ----------------------------------------------------------------------------- C13 / C14 (pairs)
+def _pair_violations(pid, kind, clause, ps):
+    viols = []
+    for p in ps["pairs"]:
+        if p["kind"] != kind:
+            continue
+        if p["diff"] or p["lena"] != p["lenb"]:
+            where = f"first differing event {p['diff']} ({p['what']})" if p["diff"] else f"lengths {p['lena']} vs {p['lenb']}"
+            viols.append(Violation(pid, clause, f"{clause} pair={p['name']} {where}", {"pair": p}))
+    return viols
+
+
+@prop("C13")
+def c13(tier: str) -> PropResult:
+    from .mod_pairs import pairs_stage
+    ps = pairs_stage(tier)
+    viols = _pair_violations("C13", "twin", "C13_TwinEqual", ps)
+    cov = {"states": ps["pair_states"] + ps["trace_states"], "transitions": ps["pair_states"] + ps["trace_states"],
+           "traces_validated_against_impl": 2 * ps["stats"]["twin_pairs"], "samples": [ps["sample"]],
+           "evaluations": ps["stats"]["twin_pairs"], "distinct_nontrivial": ps["stats"]["twin_with_sprouts"],
+           "rule": "whole-run form: one evaluation = one twin pair (seeded run on (f, maximize) and on (-f, minimize)) over index-stable "
+                   "engine mixes (DE, DE+dither, SHADE, CMA fixed/warm/set_stds, L-BFGS-B, LHS, Sobol), compared event by event by "
+                   "PairTrace.tla; non-trivial = the pair sprouted at least one deme. Decision form: function tables below",
+           "pairs": ps["stats"], "function_tables": {}}
+    vac = [k for k in ("twin_with_cma", "twin_with_local", "twin_with_sprouts") if ps["stats"].get(k, 0) == 0]
+    for t in ("engines", "sprout", "nbc"):
+        st, vt, info = _table_source("C13", t, tier)
+        viols += vt
+        cov["function_tables"][t] = info
+        cov["states"] += info["distinct_states"]
+        cov["transitions"] += info["generated"]
+        cov["traces_validated_against_impl"] += info["table_rows"] or 0
+    st, vt, info = _table_source("C13", "r5s", tier)
+    viols += vt
+    cov["function_tables"]["r5s"] = info
+    return PropResult(viols, cov, [
+        "twin equality is decided on genome ids (first-seen order), dense goodness ranks and digests of genomes + canonical goodness",
+        "SEA-family levels, MWEA and FitnessSteadiness are excluded from the whole-run form exactly as the property excludes them",
+    ], vacuity=vac)
+
+
+@prop("C14")
+def c14(tier: str) -> PropResult:
+    from .mod_pairs import pairs_stage
+    ps = pairs_stage(tier)
+    viols = _pair_violations("C14", "repeat", "C14_RepeatEqual", ps)
+    n = ps["stats"]["repeat_pairs"] + ps["stats"]["subprocess_pairs"]
+    cov = {"states": ps["pair_states"] + ps["trace_states"], "transitions": ps["pair_states"] + ps["trace_states"],
+           "traces_validated_against_impl": 2 * n, "samples": [ps["sample"]],
+           "evaluations": n, "distinct_nontrivial": n,
+           "rule": "one evaluation = one pair of runs of a seeded configuration of the full engine matrix: in-process vs in-process "
+                   "after scrambling the global random / numpy generators, and vs a fresh subprocess with another PYTHONHASHSEED; "
+                   "PairTrace.tla requires the two event streams to be equal",
+           "pairs": ps["stats"]}
+    vac = [k for k in ("subprocess_pairs", "repeat_pairs") if ps["stats"].get(k, 0) == 0]
+    return PropResult(viols, cov, [
+        "the specification's contribution is thin here (equality of behaviours); the quantifier is carried by the corpus",
+        "minimize(seed=...) repeats are covered by the MinimizeAPI stage (C03/C04)",
+    ], vacuity=vac)
